@@ -55,7 +55,13 @@ def doQuery (w : List PN) (srt cons lim : String) (cont : Option String) (around
     if srt == "c" then some (.inl .created) else if srt == "m" then some (.inl .lastMod)
     else if srt == "C" then some (.inr .createdAsc) else if srt == "r" then some (.inr .blobRefAsc) else none
   let cons? : Option Cons := if cons == "all" then some .all else if cons == "a" then some .tagA else if cons == "b" then some .tagB
-    else if cons == "t" then some .camliType else if cons == "n" then some .both else none
+    else if cons == "t" then some .camliType else if cons == "n" then some .both
+    else if cons == "y" then some .nodeType else if cons == "z" then some .nodeTypeAndA
+    else if cons.startsWith "p" then
+      (match hexArg (String.ofList (cons.toList.drop 1)) with
+       | some pfx => if pfx.isEmpty then none else some (.refPrefix pfx)
+       | none => none)
+    else none
   let lim? := (intArg lim).bind (fun n => if -2147483648 ≤ n ∧ n ≤ 2147483647 then some n else none)
   let cont? : Option Bytes := match cont with | none => some [] | some c => hexArg c
   let around? : Option (Option Ref) := match around with | none => some none | some a => (refArg a).map some
@@ -71,29 +77,68 @@ def doQuery (w : List PN) (srt cons lim : String) (cont : Option String) (around
     | .ok bs => s!"ok {showKeys w bs} -"
   | _, _, _, _, _ => "bad-op"
 
-def step (w : List PN) (ws : List String) : List PN × String :=
+/-- the state: the permanodes in declaration order, and the declared content files (key ↦ index of
+the permanode whose camliContent they are) -/
+structure St where
+  w : List PN
+  files : List (String × Nat)
+
+def keyOk (key : String) : Bool := !key.isEmpty && key.toList.all (fun c => c.isLower || c.isDigit)
+
+def showTimes (p : PN) : String := s!"ok {showTime (permanodeAnyTime p)} {showTime (permanodeModtime p)}"
+
+def attrDateOk (d : Int) : Bool := decide (d < 1600000000000000000)
+
+def step (st : St) (ws : List String) : St × String :=
+  let w := st.w
   match ws with
   | ["pn", key, refhex, dc, tags, ds] =>
-    let keyOk : Bool := key.toList.all (fun c => c.isLower || c.isDigit)
     let dc? : Option (Option Int) := if dc == "none" then some none else (timeArg dc).map some
-    let tags? : Option (Bool × Bool) :=
-      if tags == "-" then some (false, false) else if tags == "a" then some (true, false)
-      else if tags == "b" then some (false, true) else if tags == "ab" then some (true, true) else none
-    match keyOk, refArg refhex, dc?, tags?, listArg ds with
-    | true, some r, some dcv, some (ta, tb), some dates =>
-      let need := (if dcv.isSome then 1 else 0) + (if ta then 1 else 0) + (if tb then 1 else 0)
+    let tags? : Option (Bool × Bool × Bool) :=
+      if tags == "-" then some (false, false, false)
+      else if ["a", "b", "y", "ab", "ay", "by", "aby"].contains tags then
+        some (tags.contains 'a', tags.contains 'b', tags.contains 'y')
+      else none
+    match keyOk key, refArg refhex, dc?, tags?, listArg ds with
+    | true, some r, some dcv, some (ta, tb, ty), some dates =>
+      let need := (if dcv.isSome then 1 else 0) + (if ta then 1 else 0) + (if tb then 1 else 0) + (if ty then 1 else 0)
       let k : RefKey := ⟨r.name, r.sum⟩
       -- claims that carry attributes are dated before 2020-09-13 (claims after time.Now() are not in effect)
       if r.odd || need > dates.length || w.any (fun p => p.ref == k)
-          || (dates.take need).any (fun d => decide (1600000000000000000 ≤ d)) then (w, "bad-op") else
-      let p : PN := ⟨k, dcv, ta, tb, dates⟩
-      (w ++ [p], s!"ok {showTime (permanodeAnyTime p)} {showTime (permanodeModtime p)}")
-    | _, _, _, _, _ => (w, "bad-op")
-  | ["q", srt, cons, lim, cont] => (w, doQuery w srt cons lim (some cont) none)
-  | ["ar", srt, cons, lim, piv] => (w, doQuery w srt cons lim none (some piv))
-  | ["ar", srt, cons, lim, piv, cont] => (w, doQuery w srt cons lim (some cont) (some piv))
-  | _ => (w, "bad-op")
+          || (dates.take need).any (fun d => !attrDateOk d) then (st, "bad-op") else
+      let p : PN := ⟨k, dcv, ta, tb, dates, ty, none⟩
+      ({ st with w := w ++ [p] }, showTimes p)
+    | _, _, _, _, _ => (st, "bad-op")
+  | ["cc", idx, fkey, cd, ft] =>
+    let ft? : Option (Option Int) := if ft == "none" then some none else (timeArg ft).map some
+    match idx.toNat?, claimDateArg cd, ft? with
+    | some i, some d, some ftv =>
+      match w[i]? with
+      | some p =>
+        if toString i != idx || !keyOk fkey || p.cc.isSome || st.files.any (fun f => f.1 == fkey)
+            || !attrDateOk d || ftv == some zeroTime then (st, "bad-op") else
+        let p' : PN := { p with cc := some ⟨d, ftv, false⟩, dates := p.dates ++ [d] }
+        ({ w := w.set i p', files := st.files ++ [(fkey, i)] }, showTimes p')
+      | none => (st, "bad-op")
+    | _, _, _ => (st, "bad-op")
+  | ["file", fkey] =>
+    match st.files.find? (fun f => f.1 == fkey) with
+    | some (_, i) =>
+      match w[i]? with
+      | some p =>
+        match p.cc with
+        | some c =>
+          if c.indexed then (st, "bad-op") else
+          let p' : PN := { p with cc := some { c with indexed := true } }
+          ({ st with w := w.set i p' }, showTimes p')
+        | none => (st, "bad-op")
+      | none => (st, "bad-op")
+    | none => (st, "bad-op")
+  | ["q", srt, cons, lim, cont] => (st, doQuery w srt cons lim (some cont) none)
+  | ["ar", srt, cons, lim, piv] => (st, doQuery w srt cons lim none (some piv))
+  | ["ar", srt, cons, lim, piv, cont] => (st, doQuery w srt cons lim (some cont) (some piv))
+  | _ => (st, "bad-op")
 
-def machine : Machine := { σ := List PN, init := [], step := step }
+def machine : Machine := { σ := St, init := ⟨[], []⟩, step := step }
 
 end Pk.Drv.C09
